@@ -55,6 +55,8 @@ type vpFS struct {
 	stored   int    // WriteAt calls that changed the file (a call the backend itself refuses stores nothing)
 	failOp   string // operation that fails when failOn (fault injection)
 	failErr  error
+	failNth  int // fault injection by position: the failNth-th fallible operation fails (0 = off)
+	failSeen int
 	readOnlyFail bool
 }
 
@@ -136,6 +138,13 @@ func vpErr(op, p string, e syscall.Errno) error {
 func (f *vpFS) fail(op string) error {
 	if f.failOp == op {
 		return f.failErr
+	}
+	// failNth: the n-th backend operation that can fail does, whichever it is
+	if f.failNth > 0 {
+		f.failSeen++
+		if f.failSeen == f.failNth {
+			return f.failErr
+		}
 	}
 	return nil
 }
